@@ -140,6 +140,7 @@ void igris::vtermxx::newdata(int16_t input_c)
                 break;
 
             case READLINE_NOTHING:
+            case READLINE_OVERFLOW:
                 break;
 
             case READLINE_UPDATELINE:
